@@ -89,7 +89,7 @@ def handle (j : Json) : Json :=
       | .stalemate n bl => Json.mkObj [("node", Json.num (JsonNumber.fromNat n)), ("blocked", natListJson bl)]
       | .outOfFuel => Json.mkObj [("outOfFuel", boolJ true)])
     Json.mkObj [("r", "ok"), ("g", graphJ r.1), ("diags", Json.arr ds.toArray),
-      ("stalemate", boolJ (findStalemate g []).isSome), ("orderOk", boolJ ((order r.1).isSome))]
+      ("stalemate", boolJ !(findStalemate g []).isEmpty), ("orderOk", boolJ ((order r.1).isSome))]
   | some "order", some g =>
     match order g with
     | some σ => Json.mkObj [("r", "ok"), ("order", natListJson σ)]
